@@ -90,7 +90,10 @@ def gen_structured(rng, tid):
         for (n, t, d) in fs:
             r = rng.random()
             if r < 0.05: continue
-            pairs.append((n.encode(), gen_val(rng, t)))
+            key = n.encode()
+            if rng.random() < 0.12 and key:          # a client may escape any byte of a key: `%6Eame` is `name`
+                i = rng.randrange(len(key)); key = key[:i] + (b'%%%02X' if rng.random() < 0.5 else b'%%%02x') % key[i] + key[i + 1:]
+            pairs.append((key, gen_val(rng, t)))
             if r > 0.97: pairs.append((n.encode(), gen_val(rng, t)))
             if 0.85 < r <= 0.95: pairs.append((rng.choice([b"zz", b"%69d", b"x%FF"]), gen_val(rng, "string")))
     sep = lambda: rng.choice([b"&"] * 60 + [b"&&", b"", b"="])
@@ -234,10 +237,10 @@ def spec_decode(tid, text):
         for k, v in pairs:
             try: pct_decode(k).decode('utf-8')
             except UnicodeDecodeError: return None      # a key that is not text: refusing the form is acceptable, not pinned here
-            if k in names:
-                if k in got: return None            # duplicate field: serde refuses; not pinned here
-                got[k] = spec_value(names[k][0], v)
-            elif pct_decode(k) in names: return None
+            kd = pct_decode(k)                      # the key is what its percent-decoding denotes (`%6Eame` is `name`)
+            if kd in names:
+                if kd in got: return None           # duplicate field: serde refuses; not pinned here
+                got[kd] = spec_value(names[kd][0], v)
         vals = []
         for n, t, d in fields:
             if n.encode() in got: vals.append([n, got[n.encode()]])
